@@ -38,8 +38,8 @@ REGISTRY = dict(
     technique="TLA+ document model; TLC-enumerated layouts and mutants replayed into parser.ParseString; expected AST computed by TLC")
 
 TIERS = {
-    "quick": dict(sim=400, simdepth=400, bytepass_docs=6, mut_stride=1, scale_reps=2, gap1_docs=None),
-    "thorough": dict(sim=6000, simdepth=700, bytepass_docs=None, mut_stride=1, scale_reps=3, gap1_docs=None),
+    "quick": dict(mc_docs=3, mc_budget=1, sim=400, simdepth=400, bytepass_docs=6, mut_stride=1, scale_reps=2, gap1_docs=None),
+    "thorough": dict(mc_docs=4, mc_budget=2, sim=6000, simdepth=700, bytepass_docs=None, mut_stride=1, scale_reps=3, gap1_docs=None),
 }
 
 GEN_CFG = """INIT GInit
@@ -180,10 +180,9 @@ def run(ctx, args):
     docs_json = json.dumps(tla_docs)
 
     # ---- 2. design level: the printer machine itself on a small universe (all layouts with <= 2 deviations)
-    small = [d for d in tla_docs if 0 < len(d["toks"]) <= 14][:4]
-    small += [lex.tla_doc(n, f) for n, f in seeds.backslash_quote_docs()][:1]
-    ctx.tlc("Lexical", "Lexical", "mc.cfg", files={"mc.cfg": MC_CFG % 2, "docs.json": json.dumps(small)},
-            timeout=1200, label="MC_Lexical[printer, <=2 deviations, %d small docs]" % len(small))
+    small = [lex.tla_doc(n, f) for n, f in seeds.tiny_docs()][:T["mc_docs"]]
+    ctx.tlc("Lexical", "Lexical", "mc.cfg", files={"mc.cfg": MC_CFG % T["mc_budget"], "docs.json": json.dumps(small)},
+            timeout=2400, label="MC_Lexical[printer, <=%d deviations, %d small docs]" % (T["mc_budget"], len(small)))
 
     # ---- 3. generation
     fams = '"canon", "gap1", "all", "sep", "quote", "num", "mut"'
@@ -314,57 +313,56 @@ def run(ctx, args):
         t.rec_lk = rec["lk"]
         t.rec_role = rec["role"]
 
-    nviol = 0
+    def vclass(check, tab, c, where=None):
+        """class record of a violating layout case: as coarse as the cause, as narrow as possible"""
+        cl = {"check": check}
+        if where is not None:
+            cl["where"] = where
+        if c["fam"] == "num":
+            cl["role"] = tab.kind[c["i"] - 1] + "/" + tab.rec_role[c["i"] - 1]
+            cl["style"] = style_of(tab.var[c["i"] - 1][c["e"] - 1])
+        elif c["fam"] in ("canon", "gap1", "gap2", "all", "full"):
+            cl["doc"] = tab.name            # independent of the layout family: a property of the document
+        else:
+            cl["doc"] = tab.name
+            cl["fam"] = c["fam"]
+        return cl
+
+    canon_text = {d: t for (d, c, t) in layouts if c["fam"] == "canon"}
     for k, ((d, c, text), o) in enumerate(zip(layouts, res)):
         tab = tabs[d]
-        cls = layout_class(tab, c)
-        ctx.count(1, cls)
+        ctx.count(1, layout_class(tab, c))
         ctx.traces_validated += 1
         name = tab.name
         brief = {k2: c[k2] for k2 in ("fam", "i", "e", "j", "e2")}
-        variant = ""
-        if c["fam"] == "num":
-            variant = tab.var[c["i"] - 1][c["e"] - 1]
+        variant = tab.var[c["i"] - 1][c["e"] - 1] if c["fam"] == "num" else ""
         if o.get("panic") or o.get("timeout"):
-            ctx.violation({"check": "C03.total", "what": "panic" if o.get("panic") else "timeout", "doc": name, "fam": c["fam"]},
+            ctx.violation({"check": "C03.total", "what": "panic" if o.get("panic") else "timeout", "doc": name},
                           {"kind": "total", "b64": b64(text)}, {"panic": o.get("panic"), "timeout": o.get("timeout")},
                           "an AST or an error", "parser %s on a grammatical document" % ("panicked" if o.get("panic") else "timed out"))
-            nviol += 1
             continue
         # (a) fidelity of this hash class
         po = proj[(d, o.get("h"))]
         if not o["ok"]:
-            cl = {"check": "C03.fidelity", "doc": name, "fam": c["fam"], "where": "rejected"}
-            if c["fam"] == "num":
-                cl["role"] = tab.kind[c["i"] - 1] + "/" + tab.rec_role[c["i"] - 1]
-                cl["style"] = style_of(variant)
-            if ctx.violation(cl, {"kind": "fidelity", "doc": name, "layout": brief, "b64": b64(text), "expected": expected[d]},
-                             {"error": o["err"]}, "accepted (the document follows the grammar)",
-                             "grammatical document rejected: %s %s" % (name, brief)):
-                nviol += 1
+            ctx.violation(vclass("C03.fidelity", tab, c, "rejected"),
+                          {"kind": "fidelity", "doc": name, "layout": brief, "b64": b64(text), "expected": expected[d]},
+                          {"error": o["err"]}, "accepted (the document follows the grammar)",
+                          "grammatical document rejected (%s): %s %s %s" % (o["err"].strip()[:60], name, brief, variant))
             continue
         dd = lex.diff(lex.norm_projection(po["proj"]), expected[d])
         if dd:
-            cl = {"check": "C03.fidelity", "doc": name, "fam": c["fam"], "where": generalize(dd)}
-            if c["fam"] == "num":
-                cl["role"] = tab.kind[c["i"] - 1] + "/" + tab.rec_role[c["i"] - 1]
-                cl["style"] = style_of(variant)
-            if ctx.violation(cl, {"kind": "fidelity", "doc": name, "layout": brief, "b64": b64(text), "expected": expected[d]},
-                             {"proj": po["proj"], "diff": dd}, "the AST of the program model (expected)",
-                             "AST differs from the program model: %s [%s %s]" % (dd, name, brief)):
-                nviol += 1
-        # (b) layout independence (independent of the expected-AST encoder)
-        if c["fam"] != "canon" and d in canon_h and o.get("h") != canon_h[d]:
-            cl = {"check": "C03.layout", "doc": name, "fam": c["fam"]}
-            if c["fam"] == "num":
-                cl["role"] = tab.kind[c["i"] - 1] + "/" + tab.rec_role[c["i"] - 1]
-                cl["style"] = style_of(variant)
-            canon_text = next(t for (d2, c2, t) in layouts if d2 == d and c2["fam"] == "canon")
-            if ctx.violation(cl, {"kind": "layout", "doc": name, "layout": brief, "b64": b64(text), "canon_b64": b64(canon_text)},
-                             {"h": o.get("h"), "canon_h": canon_h[d], "proj": po.get("proj")},
-                             "the same AST as the canonical layout of the same program",
-                             "AST depends on the layout: %s %s %s" % (name, brief, variant)):
-                nviol += 1
+            ctx.violation(vclass("C03.fidelity", tab, c, generalize(dd)),
+                          {"kind": "fidelity", "doc": name, "layout": brief, "b64": b64(text), "expected": expected[d]},
+                          {"proj": po["proj"], "diff": dd}, "the AST of the program model (expected)",
+                          "AST differs from the program model: %s [%s %s %s]" % (dd, name, brief, variant))
+        # (b) layout independence (independent of the expected-AST encoder); if the canonical layout itself is
+        # rejected that is reported once above, not again for every other layout
+        if c["fam"] != "canon" and canon_h.get(d) not in (None, "ERR", "BAD") and o.get("h") != canon_h[d]:
+            ctx.violation(vclass("C03.layout", tab, c),
+                          {"kind": "layout", "doc": name, "layout": brief, "b64": b64(text), "canon_b64": b64(canon_text[d])},
+                          {"h": o.get("h"), "canon_h": canon_h[d], "proj": po.get("proj")},
+                          "the same AST as the canonical layout of the same program",
+                          "AST depends on the layout: %s %s %s" % (name, brief, variant))
     if layouts:
         mid = layouts[len(layouts) // 3]
         ctx.sample({"doc": tabs[mid[0]].name, "case": {k2: mid[1][k2] for k2 in ("fam", "i", "e")}, "text": mid[2][:400]})
@@ -436,8 +434,17 @@ def run(ctx, args):
         if all((k, s) in scale_obs for s in sizes):
             t = [scale_obs[(k, s)]["ns"] for s in sizes]
             growth[k] = [round(x / 1e6, 2) for x in t]
-            # superlinear blow-up: more than 3x per doubling, twice in a row, on a measurable time (> 50 ms)
-            if t[2] > 50e6 and t[1] > 0 and t[0] > 0 and t[2] / t[1] > 3.0 and t[1] / t[0] > 3.0:
+            # superlinear blow-up: more than 3x per doubling, twice in a row, on a clearly measurable time (>= 0.5 s
+            # at 64 KiB; a linear parse of 64 KiB takes a few ms), re-measured to exclude scheduling noise
+            if t[2] >= 500e6 and t[1] > 0 and t[0] > 0 and t[2] / t[1] > 3.0 and t[1] / t[0] > 3.0:
+                again = []
+                for s2 in sizes:
+                    r3, _ = run_parse(ctx, harness, [{"id": k, "b64": b64(fam[s2][k][:65536]), "limit_ms": TIME_LIMIT_MS, "reps": 5}],
+                                      "rescale", timeout=600)
+                    again.append(r3[0]["ns"] if r3 else 0)
+                t = again
+                growth[k] = [round(x / 1e6, 2) for x in t]
+            if t[2] >= 500e6 and t[1] > 0 and t[0] > 0 and t[2] / t[1] > 3.0 and t[1] / t[0] > 3.0:
                 ctx.violation({"check": "C03.total", "family": "scaled", "what": "superlinear", "doc": k},
                               {"kind": "scaled", "doc": k}, {"ms_at_16K_32K_64K": growth[k]},
                               "time at most triples when the size doubles",
